@@ -1528,7 +1528,8 @@ class SxStr:
                 out.append(SxChar.of(f_alpha(i.alphabet), i.idx) if len(f_alpha(i.alphabet)) == len(i.alphabet)
                            else _unsup("case mapping changes length"))
             else:
-                out.append(_case_code(i, f_alpha))
+                r = _case_code(i, f_alpha)
+                out.extend(r if isinstance(r, list) else [r])
         return _mkstr(out)
 
     def lower(s):
@@ -1744,22 +1745,82 @@ def _unsup(msg):
     raise Unsupported(msg)
 
 
+_CASE_TABLES = {}
+
+
+def _case_tables(f):
+    """exact tables of CPython's own str.lower / str.upper over all code points, computed once per process:
+    (runs, multi) -- runs = [(first, last, step, delta)] for one-to-one mappings that change the character,
+    multi = {code point: replacement string} for the length-changing ones"""
+    t = _CASE_TABLES.get(f)
+    if t is not None:
+        return t
+    single, multi = {}, {}
+    for cp in range(128, 0x110000):
+        if 0xD800 <= cp <= 0xDFFF:
+            continue
+        r = f(chr(cp))
+        if r != chr(cp):
+            if len(r) == 1:
+                single[cp] = ord(r)
+            else:
+                multi[cp] = r
+    keys = sorted(single)
+    runs = []
+    i = 0
+    while i < len(keys):
+        a = keys[i]
+        d = single[a] - a
+        j = i
+        step = None
+        while j + 1 < len(keys) and single[keys[j + 1]] - keys[j + 1] == d and \
+                ((step is None and keys[j + 1] - keys[j] in (1, 2)) or step == keys[j + 1] - keys[j]):
+            step = keys[j + 1] - keys[j]
+            j += 1
+        runs.append((a, keys[j], step or 1, d))
+        i = j + 1
+    t = _CASE_TABLES[f] = (runs, multi)
+    return t
+
+
 def _case_code(ch, f):
-    # arbitrary code point: ASCII letters only are remapped; outside ASCII unsupported
-    if not bool(ch.idx < 128):
-        raise Unsupported("case mapping of a non-ASCII symbolic character")
+    """str.lower / str.upper of one symbolic code point.  ASCII: letters are remapped.  Beyond ASCII the mapping is
+    CPython's own table (exact, incl. U+212A KELVIN SIGN -> 'k', U+0131 -> 'I', U+017F -> 'S'); code points whose
+    mapping changes the length are enumerated by forking; GREEK CAPITAL SIGMA (context-dependent final form) is
+    over-approximated and marks the path incomplete."""
     c = ch.idx
-    if f is str.lower:
-        isup = (c >= 65) & (c <= 90) if not isinstance(c >= 65, bool) and not isinstance(c <= 90, bool) \
-            else ((c >= 65) and (c <= 90))
-        if isinstance(isup, bool):
-            return SxChar(None, c + 32 if isup else c)
-        return SxChar(None, sym_ite(isup, c + 32, c))
-    islow = (c >= 97) & (c <= 122) if not isinstance(c >= 97, bool) and not isinstance(c <= 122, bool) \
-        else ((c >= 97) and (c <= 122))
-    if isinstance(islow, bool):
-        return SxChar(None, c - 32 if islow else c)
-    return SxChar(None, sym_ite(islow, c - 32, c))
+    if not bool(c >= 128):
+        if f is str.lower:
+            isup = (c >= 65) & (c <= 90) if not isinstance(c >= 65, bool) and not isinstance(c <= 90, bool) \
+                else ((c >= 65) and (c <= 90))
+            if isinstance(isup, bool):
+                return SxChar(None, c + 32 if isup else c)
+            return SxChar(None, sym_ite(isup, c + 32, c))
+        islow = (c >= 97) & (c <= 122) if not isinstance(c >= 97, bool) and not isinstance(c <= 122, bool) \
+            else ((c >= 97) and (c <= 122))
+        if isinstance(islow, bool):
+            return SxChar(None, c - 32 if islow else c)
+        return SxChar(None, sym_ite(islow, c - 32, c))
+    runs, multi = _case_tables(f)
+    if multi:
+        ks = sorted(multi)
+        anym = mkbool(z3.Or(*[z3bool(c == k) for k in ks]))
+        if bool(anym):
+            k = concretize_small(c, ks[0], ks[-1])
+            return list(multi[k])
+    if f is str.lower and bool(c == 0x3A3):
+        if core.CTX is not None:
+            core.CTX.incomplete.append("final-sigma rule of str.lower over-approximated")
+            v = core.CTX.newvar("sigma", z3.IntSort())
+            core.CTX.add(z3.Or(v == 0x3C3, v == 0x3C2))
+            return SxChar(None, SxInt(v, 0x3C2, 0x3C3))
+    r = c
+    for (a, b, step, d) in reversed(runs):
+        cond = (c >= a) & (c <= b)
+        if step == 2:
+            cond = cond & (((c - a) & 1) == 0 if c.is_bv else ((c - a) % 2) == 0)
+        r = sym_ite(cond, c + d, r)
+    return SxChar(None, r)
 
 
 def _items(p):
